@@ -1,6 +1,6 @@
 (* C02 — Every instruction word executes as the ISA prescribes.
    Only statements, each closed by [exact]; proofs live in VmProofs.v. *)
-From Lace Require Import Word Machine Isa Vm VmProofs.
+From Lace Require Import Word Machine Isa Vm VmProofs FrameProofs.
 
 (** The transcription of lace's [RunState::execute] agrees with the ISA semantics of the decoded
     instruction: for every 16-bit word, every feature setting and every well-formed machine state
@@ -29,6 +29,17 @@ Theorem C02_unsupported : forall (w : N) (st : state), wf st -> w < W ->
   (w / 4096 = 15 -> (w mod 256 < 32 \/ 39 < w mod 256) -> forall feat, execute feat w st = Exited 238 st).
 Proof. exact execute_unsupported. Qed.
 Print Assumptions C02_unsupported.
+
+(** Nothing but the specified locations changes: executing any word leaves every register outside
+    [reg_targets] (the destination register; R7 for JSR/JSRR and the stack instructions; R0 for
+    GETC/IN), every memory word other than the single [mem_target] (the effective address of
+    ST/STI/STR, the new stack top of PUSH/CALL), and the origin exactly as they were. *)
+Theorem C02_frame : forall (feat : bool) (w : N) (st st' : state),
+  wf st -> w < W -> execute feat w st = Running st' ->
+  same_regs_except (reg_targets (decode w)) st st' /\
+  same_mem_except (mem_target (decode w) st) st st' /\ s_orig st' = s_orig st.
+Proof. exact execute_frame. Qed.
+Print Assumptions C02_frame.
 
 (** Non-vacuity: a concrete non-trivial well-formed state, and the theorem instantiated on it
     (JSRR R7 with R7 = x4000 at PC = x3001: jumps to x4000, links x3001). *)
